@@ -26,6 +26,10 @@ def main():
             if r["outcome"] != "pass":
                 print("setup: Kani build probe did not pass:\n" + r["raw_tail"])
                 return 1
+            # second package of the workspace (server core: tokio, garble_lang, url, ...)
+            r = kani.run(scratch, "c14_msg_before_schedule_is_an_error", tmp, 1800, 20, full="state::__verif::c14_msg_before_schedule_is_an_error", package="polytune-server-core")
+            if r["outcome"] != "pass":
+                print("setup: Kani build probe of polytune-server-core did not pass (the C14-C17 checks will build it themselves):\n" + r["raw_tail"][-1500:])
             os.rename(tmp, seed)
         print("setup ok: " + seed)
         return 0
